@@ -566,6 +566,40 @@ def _agg(g, scale):
             g.emit("%s %s %d wa wb wc" % (fn, y, w))
             g.emit("wf %s" % y)
         g.count("agg:wide-manyworkers")
+    # a key present in exactly two operands: array (or short run) in the first, a non-full run in the second, union <= 4096 —
+    # eager unions inside the lazy pipeline must still end in the canonical container kind
+    g.emit("# group agg fixed-eager-in-lazy")
+    for j, first in enumerate(["A:5,9,700,701,9000", "R:100+20,4000+3", "A:1"]):
+        k = [7, 30000, 65535][j]
+        a, b, c = g.fresh("ea"), g.fresh("eb"), g.fresh("ec")
+        g.emit("mkrepr %s cow=0;%d:A:3;%d:%s" % (a, max(0, k - 5), k, first) if k >= 5 else "mkrepr %s cow=0;%d:%s" % (a, k, first))
+        g.emit("mkrepr %s cow=0;%d:R:50+300,2000+40" % (b, k))
+        g.emit("mkrepr %s cow=0;%d:A:1,2" % (c, max(0, k - 3)))
+        for fn, w in [("paror", 1), ("paror", 2), ("parheapor", 1), ("parheapor", 3), ("fastor", None), ("heapor", None)]:
+            for order in ([a, b, c], [b, a, c], [c, a, b]):
+                y = g.fresh("ey")
+                g.emit(("%s %s %s %s" % (fn, y, "" if w is None else str(w), " ".join(order))).replace("  ", " "))
+                g.emit("wf %s" % y)
+                g.emit("size %s" % y)
+        g.count("agg:eager-in-lazy")
+    # three sparse array operands; the key of interest is held by the FIRST and the LAST only (the in-place lazy union of the third
+    # operand meets an array chunk), union well below 4096 but sum of cardinalities above the lazy lower bound
+    g.emit("# group agg fixed-sparse3")
+    for k, n1, n2 in [(0, 700, 700), (4000, 600, 1500), (65535, 1025, 5)]:
+        a, b, c = g.fresh("sa"), g.fresh("sb"), g.fresh("sc")
+        va = sorted(g.r.sample(range(0, 65536, 2), n1))
+        vc = sorted(g.r.sample(range(1, 65536, 2), n2))
+        other = (k + 1) % 65536
+        g.emit("mkrepr %s cow=0;%s" % (a, ";".join(sorted(["%d:A:%s" % (k, ",".join(map(str, va)))], key=lambda t: int(t.split(":")[0])))))
+        g.emit("mkrepr %s cow=0;%d:A:77" % (b, other))
+        g.emit("mkrepr %s cow=0;%d:A:%s" % (c, k, ",".join(map(str, vc))))
+        for order in ([a, b, c], [c, b, a], [b, a, c], [a, c, b]):
+            for fn in ("fastor", "heapor"):
+                y = g.fresh("sy")
+                g.emit("%s %s %s" % (fn, y, " ".join(order)))
+                g.emit("wf %s" % y)
+                g.emit("size %s" % y)
+        g.count("agg:sparse3")
     g.emit("clone fx fa")
     g.emit("andany fx fb")
     g.emit("andany fx fx")
